@@ -296,7 +296,7 @@ def _proto_job(arg):
     # the stream: 1-D integer features (duplicates matter for the density windows)
     Xs = rng.randint(0, 8, size=(n, 1)).astype(float)
     pat = rng.randint(4)
-    if pat == 0:
+    if chunk_mode >= 100 or pat == 0:      # (chunk_mode 100 + k: greedy stream in chunks of k instances)
         us = np.ones(n)
     elif pat == 1:
         us = rng.choice([0.0, 1.0, np.nan], size=n, p=[0.3, 0.6, 0.1])
@@ -305,7 +305,9 @@ def _proto_job(arg):
     sizes = []
     left = n
     while left > 0:
-        if chunk_mode == 0:
+        if chunk_mode >= 100:
+            k = chunk_mode - 100
+        elif chunk_mode == 0:
             k = 1
         elif chunk_mode == 1:
             k = int(rng.randint(1, 5))
@@ -321,12 +323,14 @@ def _proto_job(arg):
     uchunks = [us[a:b] for a, b in zip(edges[:-1], edges[1:])]
     extra = [[("same", "other")[rng.randint(2)] for _ in range(rng.randint(0, 3))] for _ in chunks]
     other = (rng.randint(0, 8, size=(3, 1)).astype(float), rng.rand(3))
+    prologue = bool(dseed % 3 == 0)       # one third of the histories start with an update
     concrete = {"object": name, "is_manager": is_manager, "budget": budget, "w": w, "seed": seed, "n": n,
-                "chunk_sizes": sizes, "data_seed": dseed}
+                "chunk_sizes": sizes, "data_seed": dseed, "starts_with_update": prologue}
     base = name.split("+")[0]
     return sc.record_pair(make_obj, is_manager, base if not is_manager else name, budget, chunks, uchunks, clf,
-                          extra, other, "b%.3f-w%d-seed%d-n%d-c%d-d%d" % (budget, w, seed, n, chunk_mode, dseed),
-                          concrete)
+                          extra, other, "b%.3f-w%d-seed%d-n%d-c%d-d%d%s" % (budget, w, seed, n, chunk_mode, dseed,
+                                                                         "-u1st" if prologue else ""),
+                          concrete, prologue=prologue)
 
 
 def proto_jobs(pid, quick, rng):
@@ -344,6 +348,18 @@ def proto_jobs(pid, quick, rng):
             w = int(rng.choice([2, 5, 20, 100]))
             n = int(rng.choice([60, 160] if quick else [160, 400]))
             jobs.append((name, False, budget, w, int(rng.integers(0, 100)), n, r % 4, int(rng.integers(0, 10 ** 6))))
+    if pid == "C04":
+        # greedy streams in chunks about as long as the window: the regime in which an estimate that is committed
+        # too low lets the number of granted labels cross the counting bound within a few windows
+        big = [(32, 0.125, 64, 140), (50, 0.125, 50, 120), (64, 0.125, 64, 140), (32, 0.25, 32, 200),
+               (100, 0.125, 100, 220), (20, 0.25, 40, 140)]
+        if not quick:
+            big += [(64, 0.25, 64, 260), (100, 0.25, 100, 420), (50, 0.5, 50, 620), (64, 0.0625, 64, 150),
+                    (32, 0.5, 64, 420), (50, 0.25, 25, 460)]
+        for name in ("FixedUncertaintyBudgetManager", "VariableUncertaintyBudgetManager",
+                     "RandomVariableUncertaintyBudgetManager", "RandomBudgetManager", "SplitBudgetManager"):
+            for w, b, k, n in big:
+                jobs.append((name, True, b, w, int(rng.integers(0, 100)), n, 100 + k, int(rng.integers(0, 10 ** 6))))
     return jobs
 
 
